@@ -511,6 +511,15 @@ class TGen:
                 break
         else:
             return None
+        if r.random() < 0.12:
+            # a sign in front keeps the type of a number (and makes a number of a truth value: -True == -1)
+            self.unary = getattr(self, "unary", 0) + 1
+            self.interesting = True
+            if r.random() < 0.3:
+                b1 = self.boolean(v, vt, 0)
+                if b1 is not None:
+                    return f"(-({b1}))", int
+            text = f"({r.choice(['-', '+'])}{text})"
         if d > 0 and r.random() < 0.5:
             o = self.scalar(v, vt, d - 1)
             other, ot = o if o is not None and r.random() < 0.7 else r.choice([("1", int), ("2.5", float), ("3", int)])
@@ -532,6 +541,9 @@ class TGen:
         if s is None:
             return None
         b = f"{s[0]} {r.choice(['>', '<', '==', '>='])} {r.choice(['1', '2.5'])}"
+        if r.random() < 0.1:
+            self.unary = getattr(self, "unary", 0) + 1
+            b = f"(not {s[0]})" if r.random() < 0.5 else f"(not ({b}))"
         if d > 0 and r.random() < 0.4:
             o = self.boolean(v, vt, d - 1)
             if o is not None:
@@ -661,6 +673,8 @@ def judge_stage(ctx, stream, cur_t, rnd):
         ctx.count("conditionals-with-equal-branch-types")
     if getattr(g, "records_cond", 0):
         ctx.count("conditionals-of-records-with-permuted-fields", g.records_cond)
+    if getattr(g, "unary", 0):
+        ctx.count("unary-operators", g.unary)
     if getattr(g, "bool_arith", 0):
         ctx.count("arithmetic-on-two-truth-values", g.bool_arith)
     if getattr(g, "odd_keys", 0):
